@@ -180,6 +180,10 @@ func write(req *protocol.Request, w network.Writer, usingProxy bool) error {
 			ruri = uri.Host()
 		} else if usingProxy {
 			ruri = uri.FullURI()
+			// the fragment is not part of a request target (FullURI ends with "#" + hash)
+			if n := len(uri.Hash()); n > 0 {
+				ruri = ruri[:len(ruri)-n-1]
+			}
 		}
 
 		req.Header.SetRequestURIBytes(ruri)
